@@ -1,6 +1,18 @@
 // SPDX-FileCopyrightText: 2026 The Pion community <https://pion.ly>
 // SPDX-License-Identifier: MIT
 
+// Property C01 - finding 1: a SACK is built with one gap ack block per hole, however
+// many there are. With more than ~2040 holes the SACK packet is larger than the
+// 8192-byte buffer (receiveMTU) the peer reads inbound packets into - and larger than
+// the MTU - so the data sender can never read a SACK again and the transfer stops for
+// good.
+//
+//   TestHuntC01_1_SackLargerThanReceiveBuffer_NoLossPausedReader  no packet loss at all (FAILS)
+//   TestHuntC01_1_Control_PausedReaderFewHoles                    its control            (passes)
+//   TestHuntC01_1_SackLargerThanReceiveBuffer                     bounded loss, MTU 48    (FAILS)
+//   TestHuntC01_1_SackLargerThanReceiveBuffer_DefaultMTU          bounded loss, MTU 1191  (FAILS)
+//   TestHuntC01_1_Control_FewHoles                                their control          (passes)
+
 package sctp
 
 import (
@@ -467,6 +479,12 @@ func hunt1PausedReader(t *testing.T, nAlt int, wait time.Duration) (got1, got2 i
 	for i := 0; i < nAlt; i++ {
 		write(sa[1], 1, backlog+i)
 		write(sa[2], 2, i)
+	}
+	// keep the reader of stream 1 paused until B has either delivered all of stream 2
+	// or has begun to send SACKs that do not fit A's read buffer (at least 4 s)
+	pauseEnd := time.Now().Add(90 * time.Second)
+	for time.Now().Before(pauseEnd) && n2.Load() != int64(nAlt) && tooBigB.Load() == 0 {
+		time.Sleep(20 * time.Millisecond)
 	}
 	time.Sleep(4 * time.Second)
 	t.Logf("before the paused reader resumes: stream 2 delivered %d/%d, largest packet B->A %d bytes", n2.Load(), nAlt, maxB.Load())
